@@ -1,6 +1,7 @@
 package scen
 
 import (
+	"context"
 	"fmt"
 	"net"
 	"os"
@@ -32,12 +33,36 @@ type onceState struct {
 	rfErr             bool
 	protos            []string // results of Protocol(), in call order (sequential scenario only)
 	reattach          []string // results of ReattachConfig(), rendered
+	// reattach behaviours: the client under test attaches to a plugin that another client launched
+	launcher        *plugin.Client
+	attachCalls     int
+	attachAfterKill bool
+	testMode        bool
 }
+
+// onceAttached is the AttachedRunner handed to a reattaching client: it follows the scripted plugin process.
+type onceAttached struct {
+	st *onceState
+}
+
+func (a *onceAttached) Wait(context.Context) error { <-a.st.r.exited; vs.Point("attached.Wait"); return nil }
+func (a *onceAttached) Kill(context.Context) error { a.st.r.exit(); return nil }
+func (a *onceAttached) ID() string                 { return "attached-1" }
+func (a *onceAttached) PluginToHost(n, ad string) (string, string, error) { return n, ad, nil }
+func (a *onceAttached) HostToPlugin(n, ad string) (string, string, error) { return n, ad, nil }
 
 func newOnce(x *vs.Exec, behaviour string) *onceState {
 	st := &onceState{x: x}
 	ps := plugin.PluginSet{"p": &tagPlugin{tag: "t"}}
 	var script func(r *scriptRunner)
+	// "re-<proto>": the client under test reattaches to a running plugin; "tre-<proto>": in test mode
+	// (ReattachConfig.Test, what ServeConfig.Test hands out: Kill must leave the plugin alone)
+	attach := ""
+	if b, ok := strings.CutPrefix(behaviour, "tre-"); ok {
+		attach, behaviour, st.testMode = b, b, true
+	} else if b, ok := strings.CutPrefix(behaviour, "re-"); ok {
+		attach, behaviour = b, b
+	}
 	switch behaviour {
 	case "netrpc":
 		script = servePlugin(serveOpts{proto: "netrpc", plugins: ps})
@@ -76,11 +101,40 @@ func newOnce(x *vs.Exec, behaviour string) *onceState {
 	if behaviour == "grpc" {
 		cfg.Plugins = plugin.PluginSet{"p": &tagGRPCPlugin{tag: "t"}}
 	}
+	if attach != "" {
+		// the plugin is launched by another client first (set-up, no decision points)
+		x.Hold()
+		lcfg := *cfg
+		lcfg.RunnerFunc = st.r.runnerFunc
+		st.launcher = plugin.NewClient(&lcfg)
+		_, err := st.launcher.Start()
+		rc := st.launcher.ReattachConfig()
+		x.Release()
+		if err != nil || rc == nil {
+			x.Fail("ENGINE", "reattach set-up: launching the plugin failed: %v", err)
+			rc = &plugin.ReattachConfig{}
+		}
+		cfg.RunnerFunc = nil
+		cfg.UnixSocketConfig = nil
+		cfg.Reattach = &plugin.ReattachConfig{
+			Protocol: rc.Protocol, ProtocolVersion: 1, Addr: rc.Addr, Pid: 1 << 22, Test: st.testMode,
+			ReattachFunc: func() (runner.AttachedRunner, error) {
+				st.attachCalls++
+				if st.killedAfterLaunch { // (a Kill before any attach stops nothing, like a Kill before any launch)
+					st.attachAfterKill = true
+				}
+				return &onceAttached{st: st}, nil
+			},
+		}
+	}
 	st.cl = plugin.NewClient(cfg)
 	x.OnCleanup(func() {
 		st.r.exit()
 		for _, d := range st.tmpDirs {
 			os.RemoveAll(d)
+		}
+		if st.launcher != nil && st.r.tmpDir != "" {
+			os.RemoveAll(st.r.tmpDir)
 		}
 	})
 	return st
@@ -132,7 +186,7 @@ func (st *onceState) op(name string) {
 	case "Kill":
 		st.cl.Kill()
 		st.killed = true
-		if st.r.startCount() > 0 {
+		if (st.launcher == nil && st.r.startCount() > 0) || st.attachCalls > 0 {
 			st.killedAfterLaunch = true
 		}
 		x.Obs("Kill")
@@ -150,6 +204,17 @@ func (st *onceState) check(desc string) {
 	}
 	if st.launchAfterKill {
 		x.Fail("S", "a call after Kill launched the plugin again %s [%s]", circ, desc)
+	}
+	if st.launcher != nil {
+		if st.rfCalls > 0 {
+			x.Fail("S", "a reattaching client launched a plugin (RunnerFunc called %d times) [%s]", st.rfCalls, desc)
+		}
+		if st.attachCalls > 1 {
+			x.Fail("S", "the client attached to its plugin %d times (ReattachFunc calls) [%s]", st.attachCalls, desc)
+		}
+		if st.attachAfterKill && !st.testMode {
+			x.Fail("S", "a call after Kill attached to the plugin again [%s]", desc)
+		}
 	}
 	for _, a := range st.addrs[min(1, len(st.addrs)):] {
 		if a != st.addrs[0] {
@@ -228,12 +293,15 @@ func init() {
 			}
 			var out []explore.Params
 			var rec func(prefix []string)
-			behs := []string{"netrpc", "grpc", "badline", "badproto", "silent", "rferr"}
+			behs := []string{"netrpc", "grpc", "badline", "badproto", "silent", "rferr", "re-netrpc", "re-grpc", "tre-netrpc", "tre-grpc"}
 			rec = func(prefix []string) {
 				if len(prefix) > 0 {
 					for _, b := range behs {
 						if b == "silent" && len(prefix) > 3 {
 							continue // each failing Start costs the full timeout; keep the silent plugin to short histories
+						}
+						if strings.Contains(b, "re-") && len(prefix) > 4 {
+							continue
 						}
 						out = append(out, explore.Params{"beh": b, "seq": strings.Join(prefix, ",")})
 					}
@@ -284,7 +352,10 @@ func init() {
 		Instances: func(tier string) []explore.Params {
 			var out []explore.Params
 			ops := []string{"Start", "Client", "Kill", "Protocol", "ReattachConfig"}
-			behs := []string{"netrpc", "grpc", "badline", "badproto"}
+			behs := []string{"netrpc", "grpc", "badline", "badproto", "re-netrpc", "tre-grpc"}
+			if tier == "thorough" {
+				behs = append(behs, "re-grpc", "tre-netrpc")
+			}
 			for _, b := range behs {
 				for i, a := range ops {
 					for _, c := range ops[i:] {
